@@ -7,7 +7,10 @@ use serde_json::{json, Value};
 use std::io::{BufRead, Write};
 use std::panic::{catch_unwind, AssertUnwindSafe};
 
+mod canon;
+mod hooks;
 mod pos;
+mod syn;
 
 fn dispatch(req: &Value) -> Value {
     let op = req["op"].as_str().unwrap_or("");
@@ -17,6 +20,10 @@ fn dispatch(req: &Value) -> Value {
         "line_index" => pos::line_index(req),
         "range_ops" => pos::range_ops(req),
         "slice" => pos::slice(req),
+        "parse" => syn::parse(req),
+        "lex" => syn::lex(req),
+        "locate_tree" => syn::locate_tree(req),
+        "locate_calls" => syn::locate_calls(req),
         _ => json!({"tool_error": format!("unknown op {op}")}),
     }
 }
